@@ -11,7 +11,9 @@ RULE = ("histories over 1-4 resources with 0-3 isolation rules each (thresholds 
         "(2^32-inflight .. 2^32-1), exits in random order incl. double exits and exits of blocked/unknown ids, gauge reads, rule reloads "
         "mid-history, and schedule ops (par/sched: 1-6 goroutines parked at chain.between-check-and-stat, random interleavings of "
         "check/record/exit steps); non-trivial = at least one pass, one isolation block and one exit that is not of the newest live entry; "
-        "distinct by (rules, op-kind/boundary-class sequence)")
+        "distinct by (rules, op-kind/boundary-class sequence); plus every short schedule over 2-4 threads, and soak cases (2-16 real "
+        "goroutines x 500-10000 Entry/Exit rounds, GOMAXPROCS=NumCPU, no hooks) judged by gauge-returns / N+(G-1) / no-rejection-with-"
+        "free-capacity / totals")
 
 U32 = 2 ** 32
 RES = ["a", "b", "c", "d"]
@@ -189,6 +191,8 @@ def densify(ops, rng):
             names.update(a.split(":")[0] for a in t[1:])
         elif t[0] in ("entry", "sched"):
             names.add(t[2])
+        elif t[0] == "soak":
+            names.add(t[1])
         elif t[0] == "par":
             names.add(t[3])
     names = sorted(names) or ["a"]
@@ -264,6 +268,34 @@ def schedule_cases(tier):
     return cases
 
 
+def soak_cases(rng, tier, tag):
+    """real-parallel Entry/Exit loops: goroutines <= / > free capacity, entries in flight before, batch 0/1/N, then sequential
+    probes that the whole capacity is admissible again"""
+    n = 4 if tier == "quick" else 240
+    cases = []
+    for k in range(n):
+        N = rng.choice([1, 2, 3, 4, 8, 8, 16])
+        # (on a tree that loses gauge updates, G=8 x 3000 rounds or G=16 x 1000 show it in > 95% of the runs; G=2 in about half)
+        G = rng.choice([8, 8, 12, 16]) if tier == "quick" else rng.choice([2, 3, 4, 8, 8, 12, 16])
+        rounds = 3000 if tier == "quick" else rng.choice([1000, 3000, 10000])
+        base = rng.choice([0, 0, 1, min(2, N)])
+        b = rng.choice([1, 1, 1, 1, 0, 2, N])
+        ops = [f"load a:{N} a:{N + rng.choice([0, 1, 5])} b:{rng.choice([1, 4])}"]
+        for j in range(base):
+            ops.append(f"entry {j + 1} a 1")
+        ops += [f"soak a {G} {rounds} {b}", "conc a"]
+        if rng.random() < 0.5:
+            ops += [f"soak b {rng.choice([4, 8])} {rounds // 2} 1", "conc b"]
+        for j in range(base):
+            if rng.random() < 0.7:
+                ops.append(f"exit {j + 1}")
+        ops.append("conc a")
+        ops += [f"entry {100 + j} a 1" for j in range(N + 1)]      # fill up: exactly the free capacity is admitted
+        ops += ["conc a", f"soak a {G} {max(rounds // 4, 100)} 1", "conc a"]
+        cases.append(Case(f"{tag}-{k}", ops, tags=("soak", f"N={N}", f"G={G}", f"b={b}")))
+    return cases
+
+
 def run(ctx):
     from vlib import std
     import sys
@@ -276,9 +308,16 @@ def run(ctx):
             eng.check(cs[i:i + 4000], "schedules")
         ctx.cov["schedules_enumerated"] = len(cs)
         ctx.log(f"{len(cs)} exhaustive schedules compared")
+        if not ctx.violations:
+            sk = soak_cases(ctx.rng, ctx.tier, f"k{ctx.seed}")
+            eng.check(sk, "soak")
+            ctx.cov["soak_cases"] = len(sk)
+            ctx.log(f"{len(sk)} soak cases (real goroutines) judged against the bounds")
 
     ctx.assumptions.append("fewer than 2^31 entries in flight per resource: the gauge is an int32 in core/stat/base_node.go and an integer in the model "
                            "(hypothesis histSize h < 2^31 of the history theorems)")
+    ctx.assumptions.append("soak ops: the bound N+(G-1) is the overshoot theorem with k=G under the reading that atomic gauge operations of "
+                           "really parallel goroutines are linearizable (sync/atomic contract)")
     ctx.assumptions.append("isolation.checkPass is one atomic step of the small-step model: the only yield point of the admission path is "
                            "chain.between-check-and-stat, after the whole rule loop")
     return std.run(ctx, sys.modules[__name__], extra=extra)
